@@ -1219,7 +1219,9 @@ impl ObjectFile {
 
         for (addr, block) in b_block_map {
             if a_obj.block_map.insert(addr, block).is_some() {
-                return Err(AsmErr::new(AsmErrKind::OverlappingBlocks, []));
+                // The blocks come from different files, so there is no source span to point at;
+                // an empty span list would make `ErrSpan::first` panic.
+                return Err(AsmErr::new(AsmErrKind::OverlappingBlocks, 0..0));
             }
         }
 
@@ -1232,7 +1234,7 @@ impl ObjectFile {
             let br = u32::from(b_st) .. (u32::from(b_st) + b_bl.len() as u32);
             ranges_overlap(ar, br)
         }) {
-            return Err(AsmErr::new(AsmErrKind::OverlappingBlocks, []));
+            return Err(AsmErr::new(AsmErrKind::OverlappingBlocks, 0..0));
         }
 
         // Merge symbol tables:
